@@ -60,6 +60,14 @@ def cev(ev):
         return "(Unregister %s)" % coq_Z(ev[1])
     if k == "RegisterCopy":
         return "(RegisterCopy %s %s)" % (cstr(ev[1]), coq_Z(ev[2]))
+    if k == "RegisterCopyPriv":
+        return "(RegisterCopyPriv %s %s %s)" % (cstr(ev[1]), coq_Z(ev[2]), "true" if ev[5] else "false")
+    if k == "Serve":
+        return "(Serve %s %s)" % (cstr(ev[1]), coq_Z(ev[2]))
+    if k == "Revoke":
+        return "(Revoke %s)" % cstr(ev[1])
+    if k == "HandlerOff":
+        return "HandlerOff"
     if k == "Grant":
         return "(Grant %s %s %s)" % (cid(ev[1]), coq_Z(ev[2]), cstr(ev[3]))
     if k == "Drop":
@@ -78,9 +86,8 @@ def cworld(wd, handler):
         iface = "None" if d["iface"] is None else "(Some %s)" % coq_list(d["iface"], cstr)
         rows.append("(%s, Build_objinfo %s %s %s)" % (coq_Z(wid), d["kind"], coq_list(d["attrs"], cstr), iface))
     return ("Definition wtab : list (Z * objinfo) := %s.\n"
-            "Definition htab : list (string * Z) := %s.\n"
-            "Definition W : world := Build_world (fun o => match zget o wtab with Some i => i | None => Build_objinfo KObj [] None end)\n"
-            "  (fun n => sget n htab).\n") % (coq_list(rows), coq_list(["(%s, %s)" % (cstr(n), coq_Z(o)) for n, o in sorted(handler.items())]))
+            "Definition W : world := Build_world (fun o => match zget o wtab with Some i => i | None => Build_objinfo KObj [] None end).\n"
+            ) % coq_list(rows)
 
 
 PRELUDE = """
@@ -151,7 +158,7 @@ class Gen:
                 else:
                     out.append(["Y", 99])
             elif r < 0.82:
-                names = sorted(copyreg) * 3 + COPY_NAMES
+                names = sorted(copyreg) * 3 + COPY_NAMES + sysm_priv_names() * 2
                 out.append(["C", self.pick(names)])
             else:
                 out.append(["O", self.pick(DATA_TYPES * 2 + BAD_TYPES)])
@@ -165,11 +172,26 @@ class Gen:
         if r < 0.20:
             return ["Grant", c, self.pick([1, 2, 3, 4, 5, 6, 7, 8]), sysm.next_swiss()]
         if r < 0.26:
-            return ["Register", self.pick(PUB_NAMES), self.pick([1, 2, 3, 4, 5, 6]), sysm.next_swiss()]
+            nm, ob = self.pick(PUB_NAMES), self.pick([1, 2, 3, 4, 5, 6])
+            if snap["names"].get(nm, ob) != ob:
+                nm = ""
+            return ["Register", nm, ob, sysm.next_swiss()]
         if r < 0.29:
             return ["Unregister", self.pick([1, 2, 3, 4, 5, 6])]
         if r < 0.34:
             return ["RegisterCopy", self.pick(COPY_NAMES[:3] + ["my.rc"]), self.pick([2, 3, 1, 2, 3])]
+        q0 = self.r.random()
+        if q0 < 0.045:
+            which = self.pick([0, 0, 1])
+            return ["RegisterCopyPriv", self.pick(sysm_priv_names()), self.pick([1, 2, 3]), which,
+                    self.pick(["class", "copy", "factory", "unslicer"]), len(sysm.priv[which]) == 0]
+        if q0 < 0.085:
+            nm = self.pick(sorted(sysm_handler_names()))
+            return ["Serve", nm, sysm_handler_names()[nm]]
+        if q0 < 0.110:
+            return ["Revoke", self.pick(sorted(sysm_handler_names()))]
+        if q0 < 0.117:
+            return ["HandlerOff"]
         if r < 0.37:
             return ["Top", c, self.pick(["answer", "error", "set-vocab", "add-vocab", "instance", "list", "arguments", "x"])]
         if r < 0.375:
@@ -212,6 +234,11 @@ def sysm_handler_names():
     return impl.HANDLER_NAMES
 
 
+def sysm_priv_names():
+    from harness import c06_impl as impl
+    return impl.PRIV_NAMES
+
+
 # ------------------------------------------------------------------ the property itself, on observed behaviour
 class Oracle:
     """Independent bookkeeping of what each peer legitimately holds (from what the server wrote to it and what the peer
@@ -222,6 +249,9 @@ class Oracle:
         self.held = {"A": {}, "B": {}}        # clid -> [wid, count]
         self.copyreg = {}
         self.prev = None
+        self.known = {}            # names published in the Tub's table, from what the application did / what was put on the wire
+        self.served = {}           # what the application's handler serves now
+        self.ever_served = set()
 
     def check(self, ev, o, fail):
         impl = self.impl
@@ -250,13 +280,34 @@ class Oracle:
                         fail("grant-wrong-object", "granting %r on %s emitted a reference to %r on %s" % (ev[2], c, wid, cc))
                 elif kind == "Msg" and ev[3] == 0 and bytes(ev[4]) == b"getReferenceByName" and cc == c:
                     nm = bytes(ev[5][0][1]).decode("utf-8", "replace")
-                    published = prev["names"].get(nm, impl.HANDLER_NAMES.get(nm))
+                    published = self.known.get(nm, self.served.get(nm))
                     if published != wid:
-                        fail("name-lookup-unpublished", "getReferenceByName(%r) on %s returned object %r; the Tub's name table "
-                             "(before the message) publishes %r under that name" % (nm, c, wid, published))
+                        if nm in self.ever_served and nm not in self.served and nm not in self.known:
+                            fail("revoked-name-still-resolves", "getReferenceByName(%r) on %s returned object %r although the "
+                                 "application's lookup handler no longer serves that name (and it was never registered)" % (nm, c, wid))
+                        else:
+                            fail("name-lookup-unpublished", "getReferenceByName(%r) on %s returned object %r; the application "
+                                 "published %r under that name" % (nm, c, wid, published))
                 else:
                     fail("unexpected-reference-sent", "event %r made the server send a reference (clid %r) on %s" % (ev[:4], clid, cc))
                 self.held[cc].setdefault(clid, [wid, 0])[1] += 1
+                if url and kind == "Grant":
+                    # the first send of an object publishes it under the (unguessable) name of the URL sent along
+                    nm_ = url.split("/", 3)[3]
+                    if nm_ not in self.ever_served:
+                        self.known.setdefault(nm_, wid)
+        if kind == "Register" and o.get("regname") is not None and o["regname"] not in self.ever_served:
+            self.known[o["regname"]] = ev[2]
+        if kind == "Serve":
+            self.served[ev[1]] = ev[2]
+            self.ever_served.add(ev[1])
+        if kind == "Revoke":
+            self.served.pop(ev[1], None)
+        if kind == "HandlerOff":
+            self.served.clear()
+        if kind == "Unregister":
+            for n_ in [n_ for n_, w_ in self.known.items() if w_ == ev[1]]:
+                del self.known[n_]
         if kind == "RegisterCopy" and ev[1] not in self.copyreg and ev[1] in o.get("copykeys", [ev[1]]):
             self.copyreg.setdefault(ev[1], ev[2])
         if kind == "Drop" or (c and not snap["alive" + c]):
@@ -307,7 +358,9 @@ class Oracle:
             # classes
             allowed = [self.copyreg[a[1]] for a in args if a[0] == "C" and a[1] in self.copyreg]
             for cls in o["inst"]:
-                if cls not in allowed:
+                if cls in allowed:
+                    allowed.remove(cls)
+                else:
                     fail("unregistered-class-instantiated", "class %r instantiated; (copyable ..) arguments %r, registry %r"
                          % (cls, [a[1] for a in args if a[0] == "C"], self.copyreg))
             # release
@@ -360,6 +413,8 @@ def run_history(ctx, impl, events=None, n=25, gen=None):
                 ev = list(events[i])
                 if ev[0] in ("Register", "Grant"):
                     ev[3] = sysm.next_swiss()
+                if ev[0] == "RegisterCopyPriv":
+                    ev = ev[:5] + [len(sysm.priv[ev[3]]) == 0]
             else:
                 if i >= n or dead_probes > 3:
                     break
